@@ -96,7 +96,7 @@ where
                 // the constraint. The constraint implies that min(u) <= max(v).
                 let vmax = vdomain.max();
                 let umin = udomain.min();
-                Ok(state
+                let state = state
                     .process_domain(
                         &uwalk,
                         Rc::new(udomain.copy_before(|u| vmax < *u).ok_or(())?),
@@ -104,8 +104,14 @@ where
                     .process_domain(
                         &vwalk,
                         Rc::new(vdomain.drop_before(|v| umin <= *v).ok_or(())?),
-                    )?
-                    .with_constraint(self))
+                    )?;
+                if state.smap_ref().len() != smap.len() {
+                    // An operand was bound while the domains were narrowed: run the
+                    // constraint again instead of storing it unchecked.
+                    self.run(state)
+                } else {
+                    Ok(state.with_constraint(self))
+                }
             }
             (Some(udomain), None) if vwalk.is_number() => {
                 // The variable `u` has an assigned domain, and variable `v` has been bound
